@@ -85,7 +85,8 @@ def gen(rng, tier):
         world = bigspec
     return {'world': world, 'knobs': C.gen_knobs(rng), 'path': {'kind': kind, 'order': order, 'as_path': rng.random() < 0.5},
             'cleaned': cleaned, 'subsamples': sub, 'AB': ab, 'filter': filt, 'fields': fields,
-            'negative': None if lc else rng.choice([None, None, 'duplicate', 'mixed'])}
+            'negative': None if lc else rng.choice([None, None, 'duplicate', 'mixed']),
+            'sub_order': rng.randrange(1 << 20) if rng.random() < 0.5 else None}
 
 
 def _keep_model(world, case):
@@ -171,7 +172,7 @@ def run(case):
         C.prelude(world, knobs, root, out['faults'])
         arg, order = C.path_argument(world, gd, case['path'])
         lc = bool(world.get('lc'))
-        kw = dict(cleaned=case['cleaned'] or lc, subsamples=copy.deepcopy(case['subsamples']), fields=copy.deepcopy(case['fields']))
+        kw = dict(cleaned=case['cleaned'] or lc, subsamples=C.subsamples_argument(case), fields=copy.deepcopy(case['fields']))
         # the index columns needed for subsamples are added automatically only for cleaned loads (that is C02's
         # business); keep C03 independent of it by requesting them explicitly for field subsets
         idcol = 'index_halo' if world.get('lc') else 'id'
